@@ -259,7 +259,12 @@ fn render_exec(out: &mut String, x: &Exec, dm: Dm, ind: usize) {
             } else {
                 out.push_str(">");
                 for (n, e) in params {
-                    out.push_str(&format!("<param name=\"{}\" expr=\"{}\"/>", n, esc(&render_expr(e, dm))));
+                    if let (Some(name), Expr::Var(loc)) = (n.strip_prefix("@loc:"), e) {
+                        // the value of a location (arrays and maps can be passed this way)
+                        out.push_str(&format!("<param name=\"{}\" location=\"{}\"/>", name, loc));
+                    } else {
+                        out.push_str(&format!("<param name=\"{}\" expr=\"{}\"/>", n, esc(&render_expr(e, dm))));
+                    }
                 }
                 out.push_str("</send>\n");
             }
